@@ -49,3 +49,10 @@ pub open spec fn rev_shape(op: Operation, r: Seq<SyncOp>) -> bool {
 pub open spec fn tail_match(unsynced: Seq<Operation>, undo: Seq<Operation>) -> bool {
     undo.len() > 0 && undo.len() <= unsynced.len() && unsynced.skip(unsynced.len() - undo.len()) =~= undo
 }
+/// the operations from the last undo point on (all of them when there is none)
+pub open spec fn undo_span(u: Seq<Operation>, r: Seq<Operation>) -> bool {
+    exists|k: int| 0 <= k <= u.len() && r =~= u.skip(k)
+        && (forall|j: int| k < j < u.len() ==> !(#[trigger] u[j] is UndoPoint))
+        && (k > 0 || u.len() == 0 || u[0] is UndoPoint || forall|j: int| 0 <= j < u.len() ==> !(#[trigger] u[j] is UndoPoint))
+        && (k > 0 ==> u[k] is UndoPoint)
+}
